@@ -1,4 +1,4 @@
-import AlatorVerif.Model.Srv
+import AlatorVerif.Model.PenDs
 import AlatorVerif.Driver.Uist
 import AlatorVerif.Driver.Jura
 namespace Drv.Srv
@@ -20,8 +20,7 @@ structure Adapter (E Q O D R : Type) where
 structure DsDef where
   name : String
   syms : List String := []
-  dates : List Int := []
-  entries : List (Int × String × Float × Float) := []   -- in `add_quote` order
+  pen : PPen.Pen String Float := {}                     -- built by `add_quote`, call by call
 
 structure W (E Q : Type) where
   defs : List DsDef := []
@@ -30,18 +29,11 @@ structure W (E Q : Type) where
 variable {E Q O D R : Type}
 
 def buildDs (ad : Adapter E Q O D R) (d : DsDef) : Dataset Q :=
-  { dates := d.dates,
-    quotes := fun date =>
-      if d.dates.contains date then
-        -- later `add_quote`s for the same (date, symbol) overwrite earlier ones
-        let latest := d.syms.filterMap (fun s =>
-          (d.entries.reverse.find? (fun e => e.1 == date && e.2.1 == s)).map (fun e => (s, e.2.2.1, e.2.2.2, date)))
-        some (ad.mkQuotes latest)
-      else none }
+  Dataset.ofPen d.pen d.syms (fun es => ad.mkQuotes (es.map (fun e => (e.sym, e.bid, e.ask, e.date))))
 
-def parseEntries (date : Int) : Nat → List String → List (Int × String × Float × Float)
+def parseEntries (date : Int) : Nat → List String → List (PPen.Entry String Float)
   | 0, _ => []
-  | n + 1, sym :: b :: a :: rest => (date, sym, f64 b, f64 a) :: parseEntries date n rest
+  | n + 1, sym :: b :: a :: rest => ⟨date, sym, f64 b, f64 a⟩ :: parseEntries date n rest
   | _, _ => []
 
 def tail (ad : Adapter E Q O D R) (a : App E Q) (bt : Nat) (live : List Nat) : String :=
@@ -70,8 +62,7 @@ def step (ad : Adapter E Q O D R) (v : Variant) (w : W E Q) (ts : List String) :
     else
       ({ w with defs := w.defs.map (fun df =>
           if df.name == name then
-            { df with dates := if df.dates.contains date then df.dates else df.dates ++ [date],
-                      entries := df.entries ++ parseEntries date n rest }
+            { df with pen := df.pen.addAll (parseEntries date n rest) }
           else df) }, "ok")
   | ["SINGLE", name] =>
     match w.defs.find? (fun d => d.name == name) with
